@@ -21,6 +21,7 @@
 
 size_t _cbor_encoded_header_size(uint64_t size);
 
+static FILE* hx_devnull;   /* opened once in main, before any thread starts */
 /* ------------------------------------------------------------------ output buffer */
 static __thread char* ob;
 static __thread size_t ob_len, ob_cap;
@@ -407,8 +408,7 @@ static void load_post_body(char* line) {
     dump_rc_ok = true; dump_item(it);
     if (!dump_rc_ok) ob_printf(" RC=BAD");
     if (!tree_full(it)) ob_printf(" NOTFULL");
-    static FILE* devnull; if (!devnull) devnull = fopen("/dev/null", "w");
-    cbor_describe(it, devnull);
+    cbor_describe(it, hx_devnull);
     size_t sz = cbor_serialized_size(it);
     unsigned char* out = malloc(sz ? sz : 1);
     size_t w = cbor_serialize(it, out, sz);
@@ -965,6 +965,7 @@ static void do_frag(char* line) {
 int main(int argc, char** argv) {
   if (argc < 2) { fprintf(stderr, "usage: hx <stream> [params]\n"); return 2; }
   const char* stream = argv[1];
+  hx_devnull = fopen("/dev/null", "w");
   if (!strcmp(stream, "config")) {
     printf("CBOR_MAX_STACK_SIZE=%d CBOR_BUFFER_GROWTH=%d sizeof_item=%zu sizeof_ptr=%zu sizeof_pair=%zu sizeof_isd=%zu sizeof_rec=%zu\n",
            (int)CBOR_MAX_STACK_SIZE, (int)CBOR_BUFFER_GROWTH, sizeof(cbor_item_t), sizeof(cbor_item_t*),
